@@ -470,7 +470,7 @@ def finish(
 # --------------------------------------------------------------------------- misc helpers
 
 
-class Timeout(Exception):
+class Timeout(BaseException):
     pass
 
 
